@@ -401,6 +401,15 @@ func runExecuteCase(c *hk.Ctx, cfg *mcp.VerifRetryConfig, script []any, cancelAt
 	if cfg == nil && len(op.times) != 1 {
 		c.Violate(hk.Violation{Fingerprint: "retry.execute:no-option-not-once", What: "without retry configuration the operation did not run exactly once", Input: r.op, Observed: r.impl})
 	}
+	// search oracle that needs no model: when InitialBackoff >= MaxBackoff and the factor is a number >= 1, every wait is the cap
+	if cfg != nil && cfg.InitialBackoff >= cfg.MaxBackoff && cfg.BackoffFactor >= 1 && cfg.MaxBackoff > 0 {
+		for k, g := range gaps {
+			if g < int64(cfg.MaxBackoff) {
+				c.Violate(hk.Violation{Fingerprint: "retry.execute:wait-shorter-than-cap", What: fmt.Sprintf("wait %d was %d ns although InitialBackoff x Factor^k >= MaxBackoff = %d ns", k+1, g, int64(cfg.MaxBackoff)), Input: r.op, Observed: r.impl})
+				break
+			}
+		}
+	}
 	for i := 0; i+1 < len(op.times); i++ {
 		if i < len(script) && script[i] == nil {
 			c.Violate(hk.Violation{Fingerprint: "retry.execute:retry-after-success", What: "another attempt after a success", Input: r.op, Observed: r.impl})
